@@ -40,7 +40,7 @@ META["C13"] = {
 
 META["C01"] = {
     "text": "Bounded symbolic model checking with an ORDER ORACLE: the real ConversionSupplySet.Payouts and the real SnapshotPayouts (SQL included) are executed twice from the same symbolic pre-state, once in canonical order and once with any permutation of a map iteration / any legal result of an unstable sort (solver-chosen), and the solver shows equal balances, payouts and history rows (address -> tx_index) for all balances including exact ties. Found D3 (staking tie order), repaired by fix 703a3f1.",
-    "note": "deviation budget: one permuted map range or unstable sort per run; 2 requests/2 stakers quick, 3 thorough; clock: time.Now() is a fresh symbolic value and reaches no ledger table (monitor in other harnesses); multiFetch goroutines and grader-internal ties not encoded (not-applicable sub-claims, DESIGN §9)",
+    "note": "deviation budget: one permuted map range or unstable sort per run; 2 requests/2 stakers quick, 3 thorough; clock: time.Now() is a fresh symbolic value per call; the sync-loop scenarios (developer payout, mint, burn-address zeroings) are replayed by two independent daemons and their ledgers compared; multiFetch goroutines and grader-internal ties not encoded (not-applicable sub-claims, DESIGN §9)",
     "design_ref": "DESIGN.md §7 C01",
 }
 META["C14"] = {
@@ -71,13 +71,13 @@ META["C11"] = {
     "design_ref": "DESIGN.md §7 C11",
 }
 META["C15"] = {
-    "text": "Bounded symbolic model checking of the real DevelopersPayouts (+ InsertDeveloperRewardCoinbase), MintTokensForBalance and NullifyMintedTokens with symbolic prior balances: per-address developer amounts from the specified percentage table, total exactly 2000 PEG (x144 from 2.0.2), minted amounts per asset from the specified table x 1e8, remaining minted supply driven to exactly 0 for listed assets and untouched otherwise, bystanders untouched, history records written.",
+    "text": "Bounded symbolic model checking of the real DevelopersPayouts (+ InsertDeveloperRewardCoinbase), MintTokensForBalance and NullifyMintedTokens with symbolic prior balances: per-address developer amounts from the specified percentage table, total exactly 2000 PEG (x144 from 2.0.2), minted amounts per asset from the specified table x 1e8, remaining minted supply driven to exactly 0 for listed assets and untouched otherwise, bystanders untouched, history records written. The one-time adjustments inside the real DBlockSync (NullifyBurnAddress at 260118 and 274036, mint at 288878, burn of the mint at 294206): after the fault-free two-block run of each scenario the PEG/pUSD balances of both burn addresses, the mint address and a bystander equal the schedule, for symbolic prior balances (known finding D20: the 260118 zeroing stops after the first held asset).",
     "note": "units at the relevant concrete heights per era; the cadence (height == activation, height % 144, snapshot-before-payout) is asserted in the SyncBlock glue harness over 14 heights (closed-era finding D7: an out-of-band block skips the developer payout, reported as KNOWN-FINDING)",
     "design_ref": "DESIGN.md §7 C15",
 }
 
 META["C09"] = {
-    "text": "Bounded symbolic model checking of the real GetPegNetRateAverages (both closures, numberMissing) with SelectRates / SelectMostRecentRatesBeforeHeight over a symbolic rate table: a daemon that lives through the whole chain and a daemon restarted right before ANY rated block obtain the same averages for every asset, for every rated/unrated pattern and all rate values within the bounds. Found D4 (count-trimmed cache vs height-window reload), repaired by a fix: commit.",
+    "text": "Bounded symbolic model checking of the real GetPegNetRateAverages (both closures, numberMissing) with SelectRates / SelectMostRecentRatesBeforeHeight over a symbolic rate table: a daemon that lives through the whole chain and a daemon restarted right before ANY rated block obtain the same averages for every asset, for every rated/unrated pattern and all rate values within the bounds. Restart chain: three blocks with content (conversions held over an unrated block - no OPR/SPR entry block, or winner-less ones) through the real SyncBlock, the daemon replaced at any subset of the boundaries by a freshly started one that runs the real createTables+migrations and reloads its state from the database: identical ledgers. Found D4 (count-trimmed cache vs height-window reload), repaired by a fix: commit.",
     "note": "reduced averaging period (P=3 quick, 4 thorough; mainnet 288, code uniform in P), 6-9 heights, 2 assets; the claim that no other in-memory state influences results rests on reading SyncBlock (all other inputs go through SQL)",
     "design_ref": "DESIGN.md §7 C09",
 }
